@@ -1,9 +1,10 @@
 (* C13 — A wide-mask map behaves as a per-pixel set of bit positions.
-   Statements only; proofs in WideProofs.v (cell level) on top of C01 (the or/and updates that
-   set_bits_pix / clear_bits_pix perform are pointwise folds of the values addressed to a pixel). *)
+   Statements only; proofs in WideProofs.v (cell level) and WideMaps.v (lifted to maps through the
+   update theorem of C01: the or/and updates that set_bits_pix / clear_bits_pix / update_values_pix with
+   packed rows perform are pointwise folds of the values addressed to a pixel). *)
 From Coq Require Import QArith.
 From HS Require Import Prelude Cov Map Spec Ops Spec2 Params AtFold MapProofs UpdateProofs HistoryProofs
-     WideProofs Exec Exec2 ExecProofs.
+     WideProofs WideMaps Exec Exec2 ExecProofs.
 Open Scope Z_scope.
 
 (* the packed value of a bit list has exactly the listed bits *)
@@ -48,6 +49,43 @@ Proof. exact geom_width_fits. Qed.
 
 (* lifted to maps: after an 'or' update with the packed value, bit b of pixel q is set iff it was
    set before or q was addressed and b is in the list (exec instance of C01_update_read) *)
+(* ---- map level (cells = the integer of the packed row; any well-formed map, any block order) ---- *)
+
+(* update_values_pix(pixels, rows, operation='or'): union with every row addressed to the pixel —
+   repeated pixels with different rows accumulate *)
+Theorem C13_or_update_is_union_per_pixel :
+  forall (m : smap Z) (pvs : list (Z * Z)) (q b : Z),
+    wf wide_params m -> pvs_ok wide_params m pvs -> 0 <= q < npix Z m ->
+    Z.testbit (read Z 0 (update Z 0 Z.add Z.lor Z.land 0 (fun v => v =? 0) false m UOr pvs false) q) b =
+    Z.testbit (read Z 0 m q) b || existsb (fun v => Z.testbit v b) (vals_at Z q pvs).
+Proof. exact or_update_is_union. Qed.
+
+Theorem C13_and_update_is_intersection_per_pixel :
+  forall (m : smap Z) (pvs : list (Z * Z)) (q b : Z),
+    wf wide_params m -> pvs_ok wide_params m pvs -> 0 <= q < npix Z m ->
+    Z.testbit (read Z 0 (update Z 0 Z.add Z.lor Z.land 0 (fun v => v =? 0) false m UAnd pvs false) q) b =
+    Z.testbit (read Z 0 m q) b && forallb (fun v => Z.testbit v b) (vals_at Z q pvs).
+Proof. exact and_update_is_intersection. Qed.
+
+(* set_bits_pix / clear_bits_pix on a map: bit b of pixel q afterwards *)
+Theorem C13_set_bits_pix_on_a_map :
+  forall (m : smap Z) (ps bits : list Z) (q b : Z),
+    wf wide_params m -> (forall p, In p ps -> 0 <= p < npix Z m) -> 0 <= q < npix Z m ->
+    0 <= b -> (forall x, In x bits -> 0 <= x) ->
+    Z.testbit (read Z 0 (update Z 0 Z.add Z.lor Z.land 0 (fun v => v =? 0) false m UOr
+                                (map (fun p => (p, bits_val bits)) ps) false) q) b =
+    Z.testbit (read Z 0 m q) b || (existsb (Z.eqb q) ps && existsb (Z.eqb b) bits).
+Proof. exact set_bits_pix_spec. Qed.
+
+Theorem C13_clear_bits_pix_on_a_map :
+  forall (m : smap Z) (ps bits : list Z) (q b W : Z),
+    wf wide_params m -> (forall p, In p ps -> 0 <= p < npix Z m) -> 0 <= q < npix Z m ->
+    0 <= b < W -> (forall x, In x bits -> 0 <= x) ->
+    Z.testbit (read Z 0 (update Z 0 Z.add Z.lor Z.land 0 (fun v => v =? 0) false m UAnd
+                                (map (fun p => (p, Z.land (Z.ones W) (Z.lnot (bits_val bits)))) ps) false) q) b =
+    Z.testbit (read Z 0 m q) b && negb (existsb (Z.eqb q) ps && existsb (Z.eqb b) bits).
+Proof. exact clear_bits_pix_spec. Qed.
+
 Example C13_hypotheses_satisfiable :
   let k := mkk 0 0 1 in
   let m0 := make_empty cellv 12 4 [q0] None in
@@ -64,4 +102,8 @@ Print Assumptions C13_check_bits_is_intersection_test.
 Print Assumptions C13_valid_iff_nonempty.
 Print Assumptions C13_width_holds_requested_bits.
 Print Assumptions C13_geometry_width_fits.
+Print Assumptions C13_or_update_is_union_per_pixel.
+Print Assumptions C13_and_update_is_intersection_per_pixel.
+Print Assumptions C13_set_bits_pix_on_a_map.
+Print Assumptions C13_clear_bits_pix_on_a_map.
 Print Assumptions C13_hypotheses_satisfiable.
